@@ -80,7 +80,7 @@ func (t *TargetsMetadata) AddRule(ruleName string, authorizedPrincipalIDs, ruleP
 		return tuf.ErrInvalidThreshold
 	}
 
-	if len(authorizedPrincipalIDs) < threshold {
+	if set.NewSetFromItems(authorizedPrincipalIDs...).Len() < threshold {
 		return tuf.ErrCannotMeetThreshold
 	}
 
@@ -119,7 +119,7 @@ func (t *TargetsMetadata) UpdateRule(ruleName string, authorizedPrincipalIDs, ru
 		return tuf.ErrInvalidThreshold
 	}
 
-	if len(authorizedPrincipalIDs) < threshold {
+	if set.NewSetFromItems(authorizedPrincipalIDs...).Len() < threshold {
 		return tuf.ErrCannotMeetThreshold
 	}
 
